@@ -35,32 +35,32 @@ Example ill_formed_raises :
              (VList [VNone; VNone; VNone]) = Raise AttributeError.
 Proof. vm_compute. reflexivity. Qed.
 
-(* Idempotence: substituting the same plain, NaN-free value (dict keys pairwise distinct, as in
+(* Idempotence: substituting the same plain value (NaN included since the repair of F10; dict keys pairwise distinct, as in
    any Python dict) into the result again succeeds and returns the SAME schema (Leibniz-equal,
    hence equal under schema ==); the partial validator accepts the value at every path.  This
    holds for every well-formed schema, including the choice points where "the result accepts
    v" fails (F20/F25). *)
 Theorem subst_idempotent :
-  forall s v s', wf s = true -> plain v = true -> vwf v = true -> no_nan v = true ->
+  forall s v s', wf s = true -> plain v = true -> vwf v = true ->
                  substitute s v = Ok s' -> substitute s' v = Ok s'.
 Proof.
-  intros s v s' Hwf Hp Hv Hn Hs. exact (proj2 (subst_idem_lemma s Hwf v s' Hp Hv Hn Hs)).
+  intros s v s' Hwf Hp Hv Hs. exact (proj2 (subst_idem_lemma s Hwf v s' Hp Hv Hs)).
 Qed.
 Print Assumptions subst_idempotent.
 
 Theorem subst_result_revalidates :
-  forall s v s', wf s = true -> plain v = true -> vwf v = true -> no_nan v = true ->
+  forall s v s', wf s = true -> plain v = true -> vwf v = true ->
                  substitute s v = Ok s' -> forall p, validate Subst s' p v = [].
 Proof.
-  intros s v s' Hwf Hp Hv Hn Hs. exact (proj1 (subst_idem_lemma s Hwf v s' Hp Hv Hn Hs)).
+  intros s v s' Hwf Hp Hv Hs. exact (proj1 (subst_idem_lemma s Hwf v s' Hp Hv Hs)).
 Qed.
 Print Assumptions subst_result_revalidates.
 
-(* The NaN exclusion is needed (known finding F10): *)
-Example idempotence_refuted_for_nan :
+(* NaN is no longer an exception (F10 was repaired: a value declared as nan is matched by nan): *)
+Example idempotent_for_nan :
   match substitute (SFloat None None None None) (VFloat PrimFloat.nan) with
-  | Ok s' => substitute s' (VFloat PrimFloat.nan)
-  | r => r end = Err SubstErr.
+  | Ok s' => match substitute s' (VFloat PrimFloat.nan) with Ok s'' => true | _ => false end
+  | _ => false end = true.
 Proof. vm_compute. reflexivity. Qed.
 
 (* "Never returns a schema that accepts nothing or cannot be generated from" is decided per
